@@ -143,12 +143,12 @@ Fixpoint ends_tok (l : list lex) : bool :=
   end.
 
 (* a run: well-formed lexemes, balanced parentheses, a token at both ends *)
-Definition run := list lex.
-Definition run_ok (r : run) : bool :=
+Definition trun := list lex.   (* a token run *)
+Definition run_ok (r : trun) : bool :=
   lexs_ok 0 r && (lexs_d 0 r =? 0) && starts_tok r && ends_tok r.
 
 (* what follows a delimiting `:` must not begin with a colon *)
-Definition colon_sep (g : gap) (r : run) : bool :=
+Definition colon_sep (g : gap) (r : trun) : bool :=
   match g with
   | _ :: _ => true
   | [] => match r with LPseudo _ _ :: _ => false | _ => true end
@@ -157,15 +157,15 @@ Definition colon_sep (g : gap) (r : run) : bool :=
 (* ------------------------------------------------------------------ selectors *)
 Record selector := mkSel {
   sl_lead : option gap;                    (* Some g: a leading `:` followed by the gap g *)
-  sl_first : run;
-  sl_more : list (gap * gap * run)         (* gap `:` gap run *)
+  sl_first : trun;
+  sl_more : list (gap * gap * trun)         (* gap `:` gap trun *)
 }.
-Definition render_more (m : gap * gap * run) : str :=
+Definition render_more (m : gap * gap * trun) : str :=
   let '(g1, g2, r) := m in render_gap g1 ++ c_colon :: render_gap g2 ++ render_lexs r.
 Definition render_sel (s : selector) : str :=
   match sl_lead s with Some g => c_colon :: render_gap g | None => [] end
   ++ render_lexs (sl_first s) ++ flat_map render_more (sl_more s).
-Definition more_ok (m : gap * gap * run) : bool :=
+Definition more_ok (m : gap * gap * trun) : bool :=
   let '(g1, g2, r) := m in gap_ok g1 && gap_ok g2 && run_ok r && colon_sep g2 r.
 Definition sel_ok (s : selector) : bool :=
   match sl_lead s with Some g => gap_ok g && colon_sep g (sl_first s) | None => true end
@@ -173,7 +173,7 @@ Definition sel_ok (s : selector) : bool :=
 
 (* ------------------------------------------------------------------ items and sheets *)
 Inductive item :=
-| SDecl (g1 : gap) (name : run) (g2 g3 : gap) (value : run) (g4 : gap)
+| SDecl (g1 : gap) (name : trun) (g2 g3 : gap) (value : trun) (g4 : gap)
 | SRule (g1 : gap) (sel : selector) (g2 : gap) (body : list item) (g3 : gap).
 
 Fixpoint render_item (it : item) : str :=
